@@ -313,7 +313,7 @@ impl Engine for C13 {
             None,
             None,
             case.p_usize("pool"),
-            max_steps(&case.tier),
+            steps_for(case),
             move || run_py(&mode2, seqs, k, w, m, vs, norm),
         );
         out.absorb(&r, true);
